@@ -7,7 +7,23 @@ EXTENDS HttpClose, Json
 
 VARIABLE hist
 gvars == <<vars, hist>>
-H(s) == hist' = Append(hist, s)
+\* what the harness can see of a quiescent state (its snapshot after a step): compared, step by step, with the real run
+HClass(k) == IF nest[k] \in NestPending /\ h[k] = "running" THEN "nested"
+             ELSE IF h[k] = "running" THEN "running"
+             ELSE IF h[k] \in {"returned", "done"} THEN "ended" ELSE "none"
+Proj == [intab |-> IF tab = "live" THEN 1 ELSE 0,
+         listed |-> Cardinality({s \in Sess : listed[s]}),
+         sclosing |-> ~Stateless /\ (sst["S"] # "open" \/ \E c \in Closers : scl[c] # "idle"),
+         strclosed |-> ~Stateless /\ sst["S"] \in {"trclosed", "done"},
+         clisted |-> IF clisted THEN 1 ELSE 0,
+         \* a caller whose POST is still held in the network has not returned, whatever became of the call
+         calls |-> [k \in Calls |-> IF px[k] = "held" /\ cc[k] # "none" THEN "pending" ELSE cc[k]],
+         gone |-> gone,
+         delpend |-> del \in {"held", "hung", "srv"},
+         handlers |-> [k \in Calls |-> HClass(k)],
+         chandlers |-> [k \in Calls |-> IF nest[k] \in {"run", "orun"} THEN "running" ELSE "other"]]
+\* a history entry: the step and the projection of the state it is taken in (= the state the previous step led to)
+H(s) == hist' = Append(hist, [step |-> s, pre |-> Proj])
 GInit == Init /\ hist = <<>>
 
 \* exhaustive: hist stays empty
@@ -20,15 +36,19 @@ MCView == vars
 Quiet == ~ENABLED SdkNext
 GSdk == SdkNext /\ UNCHANGED hist
 
-SCall(k) == Quiet /\ Call(k, FALSE) /\ H(<<"call", k>>)
-SCallHeld(k) == Quiet /\ Call(k, TRUE) /\ px'[k] = "held" /\ H(<<"callh", k>>)
+\* While the DELETE of the client's Close is in flight the client's connection is inside a critical section (the
+\* transport is closed under the connection's lock): the harness lets nothing touch the client then (it would
+\* only wait for the lock), so the seam-level machine does not either.  MCSpec explores those interleavings.
+NoDel == del \notin {"held", "hung", "srv"}
+SCall(k) == Quiet /\ NoDel /\ Call(k, FALSE) /\ H(<<"call", k>>)
+SCallHeld(k) == Quiet /\ NoDel /\ Call(k, TRUE) /\ px'[k] = "held" /\ H(<<"callh", k>>)
 SRelease(k) == Quiet /\ Release(k) /\ H(<<"rel", k>>)
 SRet(k) == Quiet /\ Ret(k) /\ H(<<"ret", k>>)
-SSreq(k) == Quiet /\ Sreq(k) /\ H(<<"sreq", k>>)
-SAns(k) == Quiet /\ Ans(k) /\ H(<<"ans", k>>)
-SCCancel(k) == Quiet /\ CCancel(k) /\ H(<<"ccancel", k>>)
+SSreq(k) == Quiet /\ NoDel /\ Sreq(k) /\ H(<<"sreq", k>>)
+SAns(k) == Quiet /\ NoDel /\ Ans(k) /\ H(<<"ans", k>>)
+SCCancel(k) == Quiet /\ NoDel /\ CCancel(k) /\ H(<<"ccancel", k>>)
 SCutPost(k) == Quiet /\ CutPost(k) /\ H(<<"cutpost", k>>)
-SCClose(c) == Quiet /\ CClose(c) /\ H(<<"cclose", c>>)
+SCClose(c) == Quiet /\ NoDel /\ CClose(c) /\ H(<<"cclose", c>>)
 SSClose(c) == Quiet /\ SClose(c) /\ H(<<"sclose", c>>)
 SDelMode(m) == Quiet /\ DelMode(m) /\ H(<<"delmode", m>>)
 SReleaseDel == Quiet /\ ReleaseDel /\ H(<<"reldel">>)
@@ -37,8 +57,8 @@ SNetDown == Quiet /\ NetDown(FALSE) /\ H(<<"netdown">>)
 SVanish == Quiet /\ NetDown(TRUE) /\ H(<<"vanish">>)
 STick == Quiet /\ Tick /\ H(<<"tick">>)
 SIdle == Quiet /\ Idle /\ H(<<"idle">>)
-SCNotif == Quiet /\ CNotif /\ H(<<"cnotif">>)
-SSNotif == Quiet /\ SNotif /\ H(<<"snotif">>)
+SCNotif == Quiet /\ NoDel /\ CNotif /\ H(<<"cnotif">>)
+SSNotif == Quiet /\ NoDel /\ SNotif /\ H(<<"snotif">>)
 
 SeamNext ==
   \/ GSdk
@@ -63,7 +83,7 @@ GenSpec == GInit /\ [][GenNext]_gvars
 
 \* -simulate: every quiescent state is the end of a complete script
 Export == IF Quiet /\ Len(hist) >= 3
-          THEN PrintT(ToJson([stateless |-> Stateless, timeout |-> Timeout, sse |-> Sse, steps |-> hist]))
+          THEN PrintT(ToJson([stateless |-> Stateless, timeout |-> Timeout, sse |-> Sse, steps |-> hist, final |-> Proj]))
           ELSE TRUE
 
 \* ---------------------------------------------------------------- reachability witnesses (each must be VIOLATED)
